@@ -36,6 +36,31 @@ elif [ -f "$DEST/demo.rs" ]; then
   echo "demo WITHOUT change: $DO" | tee -a "$LOG"
 fi
 cd /; git -C /repo worktree remove --force "$W"
+# detection: in an isolated scratch copy (worktree of /repo with the patch applied + copy of /verif whose harness
+# depends on that worktree, own target dir), so that /repo itself and background runs that build from it are not disturbed.
+# ISOLATED=0 falls back to applying the patch to /repo itself (and reverting it straight afterwards).
+if [ "${ISOLATED:-1}" = "1" ]; then
+  S=/tmp/evalseed_iso_$NAME
+  rm -rf $S; mkdir -p $S
+  git -C /repo worktree prune
+  git -C /repo worktree add --detach $S/repo >/dev/null 2>&1 || { echo "worktree failed"; exit 2; }
+  ( cd $S/repo && git apply "$DEST/patch.diff" ) || { echo "patch does not apply"; git -C /repo worktree remove --force $S/repo; exit 3; }
+  rsync -a --exclude .target --exclude .git --exclude seeded --exclude fuzz/target --exclude fuzz/corpus-work /verif/ $S/verif/
+  sed -i "s#path = \"/repo\"#path = \"$S/repo\"#" $S/verif/harness/Cargo.toml
+  for p in "$@"; do
+    t0=$(date +%s.%N)
+    out=$(cd $S/verif && VERIF_DIR=$S/verif CARGO_TARGET_DIR=/tmp/evalseed_iso_target bin/check $p quick 2>&1); code=$?
+    t1=$(date +%s.%N)
+    rule=$(echo "$out" | grep -o "rule=[A-Za-z0-9_.]* sig=[^ ]*" | head -1)
+    printf "DETECT %-28s %s exit=%d %s (%.1fs, isolated copy)\n" "$NAME" "$p" "$code" "$rule" "$(echo "$t1 - $t0" | bc)" | tee -a "$LOG"
+    if [ $code -eq 2 ]; then echo "$out" | tail -3 | tee -a "$LOG"; fi
+    # keep the shrunk replay of a miss-turned-hit for inspection
+    mkdir -p /tmp/evalseed_replays/$NAME; cp $S/verif/replays/*/viol-*.json /tmp/evalseed_replays/$NAME/ 2>/dev/null
+    rm -f $S/verif/replays/*/viol-*.json
+  done
+  cd /; git -C /repo worktree remove --force $S/repo; rm -rf $S
+  exit 0
+fi
 # detection
 cd /repo; if ! git diff --quiet; then echo "refusing detection: /repo dirty"; exit 2; fi
 git apply "$DEST/patch.diff" || exit 3
